@@ -335,9 +335,11 @@ namespace
     }
 
     // ------------------------------------------------------------------------------------ C03
-    void check_c03(const Ctx& c, graph_t& graph, Rng& rng)
+    void check_c03(const Ctx& c, graph_t& graph, Rng& rng, const GState* state = nullptr)
     {
-        const GState& S = c.S;
+        const GState& S = state ? *state : c.S;
+        if (state)
+            c.R.count("c03.snapshot_graphs_checked");
         const std::size_t n = S.n;
         const char* P = "C03";
         // source fields
@@ -415,6 +417,8 @@ namespace
                 return;
             c.R.count("c03.scalar_overloads_compared");
         }
+        // the unit scalar source (drainage area) through the returning scalar overload, on every state checked
+        std::vector<double> unit = flat_vec(graph.accumulate(1.0));
         // independent recomputation from the public tables (Kahn order, long double)
         std::vector<std::size_t> indeg(n, 0);
         for (std::size_t i = 0; i < n; ++i)
@@ -474,6 +478,44 @@ namespace
         {
             c.R.count("c03.skipped_cyclic_graph");
             return;
+        }
+        {
+            // unit source: same recurrence with src = 1 (reuses the Kahn order implicitly: recompute)
+            std::vector<long double> wu(n, 0.0L), au(n, 0.0L);
+            std::vector<std::size_t> ind(n, 0), st2;
+            for (std::size_t i = 0; i < n; ++i)
+                for (std::size_t k = 0; k < S.rec_count[i]; ++k)
+                    if (S.r(i, k) != i)
+                        ind[S.r(i, k)]++;
+            for (std::size_t i = 0; i < n; ++i)
+            {
+                wu[i] = c.env.grid->nodes_areas(i);
+                au[i] = std::fabs(wu[i]);
+                if (ind[i] == 0)
+                    st2.push_back(i);
+            }
+            while (!st2.empty())
+            {
+                std::size_t i = st2.back();
+                st2.pop_back();
+                for (std::size_t k = 0; k < S.rec_count[i]; ++k)
+                {
+                    std::size_t r = S.r(i, k);
+                    if (r == i)
+                        continue;
+                    wu[r] += wu[i] * static_cast<long double>(S.rw(i, k));
+                    au[r] += au[i] * std::fabs(static_cast<long double>(S.rw(i, k)));
+                    if (--ind[r] == 0)
+                        st2.push_back(r);
+                }
+            }
+            for (std::size_t i = 0; i < n; ++i)
+                if (!(std::fabs(static_cast<long double>(unit[i]) - wu[i]) <= 1e-12L * au[i] + 1e-300L))
+                {
+                    c.fail(P, "not_upstream_integral", std::string(state ? "graph snapshot, " : "") + "unit scalar source: node " + std::to_string(i) + " accumulate(1.0)=" + jnum(unit[i]) + " recomputed=" + jnum(static_cast<double>(wu[i])));
+                    break;
+                }
+            c.R.count("c03.unit_source_checks");
         }
         bool local_ok = true;
         for (std::size_t i = 0; i < n; ++i)
@@ -1222,10 +1264,12 @@ namespace
                 ops = { op_pflood(), op_multi(rnd_p(rng)) };
             else if (u < 0.7)
                 ops = { rnd_single(rng), op_mst(rnd_bm(rng), rnd_rm(rng)) };
-            else if (u < 0.85)
+            else if (u < 0.8)
                 ops = { rnd_single(rng), op_mst(rnd_bm(rng), rnd_rm(rng)), rnd_single(rng) };
-            else
+            else if (u < 0.92)
                 ops = { rnd_single(rng), op_mst(rnd_bm(rng), rnd_rm(rng)), op_multi(rnd_p(rng)) };
+            else
+                ops = { op_multi(rnd_p(rng)), rnd_single(rng), op_mst(rnd_bm(rng), rnd_rm(rng)) };  // multiple-direction storage, single state
         }
         else if (fam == "single_final")
         {
@@ -1234,10 +1278,12 @@ namespace
                 ops = { rnd_single(rng) };
             else if (u < 0.5)
                 ops = { op_pflood(), rnd_single(rng) };
-            else if (u < 0.85)
+            else if (u < 0.8)
                 ops = { rnd_single(rng), op_mst(rnd_bm(rng), rnd_rm(rng)) };
-            else
+            else if (u < 0.9)
                 ops = { op_multi(rnd_p(rng)), rnd_single(rng) };
+            else
+                ops = { op_multi(rnd_p(rng)), rnd_single(rng), op_mst(rnd_bm(rng), rnd_rm(rng)) };
         }
         else
         {
@@ -1389,7 +1435,18 @@ namespace
             if (resolver && R.want("C02"))
                 check_c02(c);
             if (R.want("C03"))
+            {
                 check_c03(c, graph, rng);
+                // every graph snapshot is a routed flow graph too
+                for (auto& o : ops)
+                    if (o.kind == OpKind::snap && o.save_graph)
+                    {
+                        graph_t& sg = graph.graph_snapshot(o.name);
+                        GState SS = extract(sg.impl());
+                        if (SS.shapes_ok)
+                            check_c03(c, sg, rng, &SS);
+                    }
+            }
             int lr = last_router(ops);
             if (lr == 1 && R.want("C04"))
                 check_c04(c);
